@@ -29,3 +29,22 @@ def campaign(rep, pid, tier, seed, failures=False, checkpoints=False):
     rep.extra["real_scheduler_runs"]["runs"] = len(traces)
     rep.extra["real_scheduler_runs"]["flags_seen"] = counts
     return counts
+
+
+def campaign_one(rep, pid, tier, seed, kind, n):
+    """n more runs of one scheduler kind, checkpoints deleted on stop, both scheduling modes, 1-4 workers."""
+    flags = set(M.PROP_FLAGS[pid])
+    traces, meta = [], []
+    for j in range(n):
+        s = seed * 7919 + 31 * j + 5
+        nw = 1 + (j % 4)
+        tr, out = R.run(kind, s, nw, started_budget=7 + (j % 6), delete_checkpoints=True, checkpointing=True,
+                        async_sched=(j % 3 != 2), wait=(j % 5 == 4))
+        tr["id"] = len(traces) + 1
+        traces.append(tr)
+        meta.append({"scheduler": kind, "seed": s, "n_workers": nw, "p_fail": 0.0, "p_ext": 0.0, "delete_checkpoints": True})
+    counts = T.validate_traces(rep, traces, meta, pid, flags, f"real-scheduler:{kind}")
+    rep.replays += len(traces)
+    rep.extra.setdefault("real_scheduler_runs", {})[f"{kind}_runs"] = len(traces)
+    rep.extra["real_scheduler_runs"][f"{kind}_flags_seen"] = counts
+    return counts
